@@ -11,8 +11,11 @@ mod cv;
 mod driver;
 mod gen;
 mod hist;
+mod keys;
 mod model;
+mod panics;
 mod rng;
+mod tamper;
 mod wire;
 
 use std::cell::RefCell;
